@@ -9,3 +9,16 @@ for i in 01 02 03 04 05 06 07 08 09 10 11 12 13 14 15 16 17 18 19 20; do
   e=$(date +%s)
   echo "C$i rc=$rc $((e-s))s $(grep -c '^VIOLATION' /tmp/runall_C$i.log) violations $(grep -c '^KNOWN-FINDING' /tmp/runall_C$i.log) known | $(grep '^OK\|^VIOLATION' /tmp/runall_C$i.log | head -1 | cut -c1-160)"
 done
+python3-vt - <<'PY'
+import json, glob, jsonschema
+es = json.load(open('/root/.vp/EVIDENCE.schema.json'))
+bad = 0
+for f in sorted(glob.glob('/verif/evidence/C*.json')):
+    try:
+        jsonschema.validate(json.load(open(f)), es)
+    except Exception as e:
+        bad += 1
+        print('EVIDENCE-INVALID', f, str(e)[:200])
+jsonschema.validate(json.load(open('/verif/MANIFEST.json')), json.load(open('/root/.vp/MANIFEST.schema.json')))
+print('evidence files invalid:', bad, '; manifest valid')
+PY
